@@ -13,6 +13,7 @@ import json
 import os
 import random
 import tempfile
+import threading
 import time
 
 import vlib
@@ -89,9 +90,41 @@ class Ctx:
 # ---------------------------------------------------------------------------
 # TLC side
 
+class Budget:
+    """At most `n` TLC workers at any time over all concurrently running TLC processes."""
+
+    def __init__(self, n):
+        self.n = n
+        self.cv = threading.Condition()
+
+    def take(self, k):
+        with self.cv:
+            while self.n < k:
+                self.cv.wait()
+            self.n -= k
+
+    def give(self, k):
+        with self.cv:
+            self.n += k
+            self.cv.notify_all()
+
+
+TLC_WORKERS = Budget(12)
+
+
+def budgeted_tlc(module, cfg, workers, **kw):
+    TLC_WORKERS.take(workers)
+    try:
+        # several JVMs run side by side: keep their GC thread pools small
+        env = dict(kw.pop("env", None) or {})
+        env.setdefault("JAVA_TOOL_OPTIONS", "-Xss1g -XX:ParallelGCThreads=%d -XX:CICompilerCount=2" % max(2, min(workers, 4)))
+        return vlib.tlc(module, cfg, workers=workers, env=env, **kw)
+    finally:
+        TLC_WORKERS.give(workers)
+
+
 def run_tlc(cfg, workers, timeout):
-    res = vlib.tlc("glob/MCGlob", cfg, workers=workers, timeout=timeout, tlc_seed=vlib.seed() or None,
-                   xmx="6g")
+    res = budgeted_tlc("glob/MCGlob", cfg, workers, timeout=timeout, tlc_seed=vlib.seed() or None, xmx="6g")
     if res.rc != 0:
         raise vlib.ToolError("TLC reported an error in %s:\n%s" % (cfg, res.tail(40)))
     return res
@@ -159,7 +192,7 @@ def make_batches(recs, hdr, rng, tag, pairs=True):
             extra = extra[:12]
             scn = {"id": "%s/%s/%d" % (tag, gname, len(batches)), "alpha": hdr["alpha"], "len": hdr["len"],
                    "malpha": hdr["malpha"] if hdr["mlen"] else [], "mlen": hdr["mlen"],
-                   "pairs": pairs, "pairs_len": min(hdr["len"], 4), "ksets": ksets if pairs else [], "extra_paths": extra,
+                   "pairs": pairs, "pairs_len": min(hdr["len"], 3), "ksets": ksets if pairs else [], "extra_paths": extra,
                    "globs": [{"chars": r["chars"], "o": r["o"], "rnd": [c["p"] for c in r.get("rnd", [])]} for r in part]}
             batches.append((scn, part, gname == "mix"))
     return batches
@@ -220,6 +253,12 @@ def judge_batch(ctx, cfg, hdr, scn, part, out, primary=True):
         # ---- a valid glob: behaviour on the universes
         ctx.count("valid_globs")
         ctx.count("strat:" + r["strat"])
+        ctx.count("opts:" + _opts(r["o"]))
+        for k in r.get("kinds", []):
+            ctx.count("token:" + k)
+        ctx.count("random_long_paths", len(r.get("rnd", [])))
+        ctx.count("random_long_paths_matching", sum(1 for c in r.get("rnd", []) if c["m"]))
+        ctx.count("random_long_paths_not_utf8", sum(1 for c in r.get("rnd", []) if 255 in c["p"]))
         chk.evaluations += npaths
         bad = False
         for a in d.get("api", []):
@@ -405,29 +444,29 @@ def confirm(ctx):
                                 direction="accepts" if x["m"] else "rejects"),
                            {"what": "match", "why": "Glob::compile_matcher().is_match differs from the documented meaning",
                             "globs": [glob_desc(r)], "path": p, "path_text": _txt(p), "expect": exp, "observed": x["m"]})
-            if x["s"] != exp:
+            if x["s"] != x["m"]:
                 ctx.report(dict(base, clause="set_vs_members", mechanism="singleton_set",
-                                direction="set_misses_member" if exp else "set_reports_non_member"),
-                           {"what": "set", "why": "GlobSet of this one glob answers differently from the glob itself",
-                            "globs": [glob_desc(r)], "path": p, "path_text": _txt(p), "expect": [0] if exp else [],
-                            "observed": [0] if x["s"] else []})
+                                direction="set_misses_member" if x["m"] else "set_reports_non_member"),
+                           {"what": "set", "why": "GlobSet of this one glob answers differently from the glob's own matcher",
+                            "globs": [glob_desc(r)], "path": p, "path_text": _txt(p), "expect": [0] if x["m"] else [],
+                            "observed": [0] if x["s"] else [], "documented_meaning": exp})
         else:
             members = x["members"]
             exps = [expected(m, p, ci, k in x["want"]) for k, (m, ci) in enumerate(zip(members, x["_case"]))]
             exp_pos = [k for k, e in enumerate(exps) if e]
             got = x["got"]
+            want = x["want"]          # the members whose own matcher accepts the path
             rec = {"what": "set", "globs": [glob_desc(m) for m in members], "path": p, "path_text": _txt(p),
-                   "expect": exp_pos, "observed": got}
-            if x["want"] != exp_pos:
-                for k in sorted(set(x["want"]) ^ set(exp_pos)):
-                    m = members[k]
-                    ctx.report({"clause": "documented_meaning", "mechanism": "matcher_differs_from_documented_meaning",
-                                "strategy": m.get("strat"), "opts": _opts(m["o"]), "path_ends_with_dot": dot,
-                                "direction": "accepts" if k in x["want"] else "rejects"},
-                               {"what": "match", "why": "Glob::compile_matcher().is_match differs from the documented meaning",
-                                "globs": [glob_desc(m)], "path": p, "path_text": _txt(p), "expect": exps[k], "observed": k in x["want"]})
-            if got != exp_pos:
-                diff = sorted(set(got) ^ set(exp_pos))
+                   "expect": want, "observed": got, "documented_meaning": exp_pos}
+            for k in sorted(set(want) ^ set(exp_pos)):
+                m = members[k]
+                ctx.report({"clause": "documented_meaning", "mechanism": "matcher_differs_from_documented_meaning",
+                            "strategy": m.get("strat"), "opts": _opts(m["o"]), "path_ends_with_dot": dot,
+                            "direction": "accepts" if k in want else "rejects"},
+                           {"what": "match", "why": "Glob::compile_matcher().is_match differs from the documented meaning",
+                            "globs": [glob_desc(m)], "path": p, "path_text": _txt(p), "expect": exps[k], "observed": k in want})
+            if got != want:
+                diff = sorted(set(got) ^ set(want))
                 if not diff:      # same members, wrong order or repetition
                     ctx.report({"clause": "set_vs_members", "mechanism": "order_or_duplicates", "strategy": "n/a",
                                 "opts": "n/a", "path_ends_with_dot": dot, "direction": "order"},
@@ -441,7 +480,7 @@ def confirm(ctx):
                     m = members[k]
                     ctx.report({"clause": "set_vs_members", "mechanism": "set_of_%d" % min(len(members), 3),
                                 "strategy": m.get("strat"), "opts": _opts(m["o"]), "path_ends_with_dot": dot,
-                                "direction": "set_misses_member" if k in exp_pos else "set_reports_non_member"},
+                                "direction": "set_misses_member" if k in want else "set_reports_non_member"},
                                dict(rec, why="GlobSet::matches differs from the members that match individually (member %d)" % k))
 
 
@@ -465,13 +504,13 @@ def unnum(n, alpha):
 
 PLAN = {
     # cfg, TLC workers, driver processes, pairs
-    "quick": [("C12_quick_chars4", 4, 6, False), ("C12_quick_toks", 3, 5, True), ("C12_quick_chars", 2, 5, True),
-              ("C12_quick_strat", 1, 2, False), ("C12_quick_alts", 1, 2, True)],
-    "thorough": [("C12_deep_toks", 5, 8, True), ("C12_deep_chars", 4, 8, True), ("C12_deep_chars5", 3, 8, False),
-                 ("C12_deep_toks2", 2, 4, True), ("C12_deep_chars_p6", 2, 6, False), ("C12_deep_toks_p6", 2, 6, False),
-                 ("C12_deep_strat", 2, 2, False), ("C12_deep_alts", 2, 4, True)],
+    "quick": [("C12_quick_chars4", 3, 6, False), ("C12_quick_toks", 3, 5, True), ("C12_quick_chars", 2, 5, True),
+              ("C12_quick_strat", 2, 2, False), ("C12_quick_alts", 1, 2, True)],
+    "thorough": [("C12_deep_chars5", 4, 8, False), ("C12_deep_toks", 4, 8, True), ("C12_deep_chars", 4, 8, True),
+                 ("C12_deep_toks2", 2, 4, True), ("C12_deep_alts", 2, 4, True), ("C12_deep_strat", 2, 2, False),
+                 ("C12_deep_chars_p6", 2, 6, False), ("C12_deep_toks_p6", 2, 6, False)],
 }
-SELF = {"quick": [("C12_quick_self", 1)], "thorough": [("C12_deep_self", 3), ("C12_deep_self2", 3)]}
+SELF = {"quick": [("C12_quick_self", 1)], "thorough": [("C12_deep_self", 2), ("C12_deep_self2", 2)]}
 
 
 def explore(cfg, workers, procs, pairs, timeout):
@@ -481,7 +520,12 @@ def explore(cfg, workers, procs, pairs, timeout):
     if len(hdrs) != 1:
         raise vlib.ToolError("%s: expected one header record, got %d" % (cfg, len(hdrs)))
     hdr = hdrs[0]
-    recs = res.emits()
+    recs, seen = [], set()
+    for r in res.emits():          # the same string can be composed from different words
+        key = (tuple(r["chars"]), _opts(r["o"]))
+        if key not in seen:
+            seen.add(key)
+            recs.append(r)
     vlib.log("[C12] %s: %d states, %d glob scenarios in %.1fs" % (cfg, res.distinct, len(recs), res.wall))
     rng = random.Random(vlib.seed() * 1000003 + sum(map(ord, cfg)))
     batches = make_batches(recs, hdr, rng, cfg, pairs=pairs)
@@ -492,7 +536,7 @@ def explore(cfg, workers, procs, pairs, timeout):
 
 
 def selfcheck(cfg, workers, timeout):
-    res = vlib.tlc("glob/MCGlob", cfg, workers=workers, timeout=timeout)
+    res = budgeted_tlc("glob/MCGlob", cfg, workers, timeout=timeout)
     if res.rc != 0:
         raise vlib.ToolError("specification self-check failed (%s): the derivative/digest evaluation, the numbering or the "
                              "design-level strategy theorem disagrees with the reference matcher:\n%s" % (cfg, res.tail(60)))
